@@ -39,6 +39,7 @@ type Config struct {
 	PCTDepth      int
 	StarveName    string  // substring of the goroutine name to starve (StratStarve); "" = seed picks an ordinal
 	TimerRaceP    float64 // probability that a pending timer fires although goroutines are runnable (<0: seed picks)
+	FairnessBound int     // a runnable goroutine not chosen for this many decisions is chosen (default 20000)
 	NoTimerRace   bool    // timers fire only when nothing is runnable (for code whose deadlines must not be hit by scheduling alone)
 	Paranoid      bool    // check goroutine identity at every primitive (slow)
 	TickPerStep   time.Duration
@@ -97,6 +98,7 @@ type G struct {
 
 	quiesceTimers bool
 	tag           any
+	lastRun       int // scheduling decision at which it last ran (fairness bound)
 }
 
 // Tag is a goroutine-local value (inherited by goroutines it starts); harnesses use it to
@@ -153,12 +155,14 @@ type Sim struct {
 	tseq     uint64
 	earlyBud int
 
-	steps    int
-	switches int
-	thash    uint64
-	ssig     uint64
-	ring     [256]event
-	ringN    int
+	steps     int
+	decisions int
+	fairBound int
+	switches  int
+	thash     uint64
+	ssig      uint64
+	ring      [256]event
+	ringN     int
 
 	strat     StrategyKind
 	switchP   float64
@@ -213,6 +217,10 @@ func Run(t *Tape, cfg Config, main func()) *Info {
 		probes: map[string]int{}, faults: map[string]int{}, thash: 1469598103934665603, ssig: 1469598103934665603,
 		Values: map[string]any{}, earlyBud: 64}
 	s.stmtYields = cfg.StmtYields
+	s.fairBound = cfg.FairnessBound
+	if s.fairBound <= 0 {
+		s.fairBound = 20000
+	}
 	s.initStrategy()
 	active.Store(s)
 	g0 := s.newG("main")
@@ -303,7 +311,7 @@ func (s *Sim) stratString() string {
 }
 
 func (s *Sim) newG(name string) *G {
-	g := &G{id: len(s.gs), name: name, wake: make(chan struct{}, 1), exited: make(chan struct{})}
+	g := &G{id: len(s.gs), name: name, wake: make(chan struct{}, 1), exited: make(chan struct{}), lastRun: s.decisions}
 	g.prio = 1 + s.srng.Intn(1<<20)
 	if s.cur != nil {
 		g.tag = s.cur.tag
@@ -412,6 +420,9 @@ func (s *Sim) eligible(exclude *G) []*G {
 // It returns nil after having set an outcome when the run cannot continue.
 func (s *Sim) next(exclude *G) *G {
 	for {
+		for len(s.timers) > 0 && s.timers.peek().at <= s.now && s.cfg.TickPerStep > 0 {
+			s.fireTimer()
+		}
 		R := s.eligible(exclude)
 		if len(R) > 0 {
 			if s.timerP > 0 && len(s.timers) > 0 && s.earlyBud > 0 {
@@ -477,6 +488,7 @@ func (s *Sim) fireTimer() {
 
 func (s *Sim) choose(R []*G) *G {
 	if len(R) == 1 {
+		R[0].lastRun = s.decisions
 		return R[0]
 	}
 	// order: current first (if present), then by id
@@ -491,7 +503,22 @@ func (s *Sim) choose(R []*G) *G {
 		copy(R[1:curIdx+1], R[0:curIdx])
 		R[0] = c
 	}
-	v := s.tape.Draw(len(R), func(r *Rand) int { return s.strategyPick(R, curIdx >= 0) })
+	s.decisions++
+	v := s.tape.Draw(len(R), func(r *Rand) int {
+		// weak fairness: a goroutine that has been runnable but not chosen for FairnessBound decisions
+		// runs now (busy loops polling a flag would otherwise starve the goroutine that sets it)
+		oldest := -1
+		for i, g := range R {
+			if s.decisions-g.lastRun > s.fairBound && (oldest < 0 || g.lastRun < R[oldest].lastRun) {
+				oldest = i
+			}
+		}
+		if oldest >= 0 {
+			return oldest
+		}
+		return s.strategyPick(R, curIdx >= 0)
+	})
+	R[v].lastRun = s.decisions
 	return R[v]
 }
 
